@@ -18,9 +18,10 @@
 //!   G  Z  R                             a header the parser rejects / EOF / read error
 //!   W   V:<ns>                          the next write fails / takes <ns>
 //!   T:<ns>                              advance virtual time
+//!   ~<step>                             the same step, but the runtime is not allowed to settle before the next step
 //! output line: <task log>|<completion log>|<live|done>
-//!   task log: lD lC lN lF<ns> lW<ns> lS (listener)  d (connect attempt)  w<tx>:<id>@<ns> (request written)
-//!             x<tx>:<id> (write failed)  e<reason> (ClientLoop::run returned)
+//!   task log: lD lC lN@<ns> lF<ns> lW<ns> lS (listener)  d (connect attempt)  w<tx>:<id>@<ns> (request written)
+//!             x<tx>:<id> (write failed)  e<reason>@<ns> (ClientLoop::run returned)
 //!   completion log: c<id>:<class>@<ns>
 #![allow(deprecated)]
 use std::collections::HashMap;
@@ -173,7 +174,11 @@ async fn channel_task(
                 sess.fail_requests_for(delay).await
             }
             Ok(true) => {
-                tlog(&ctl, "lN".into());
+                {
+                    let mut c = ctl.lock().unwrap();
+                    let t = now_ns(&c);
+                    c.task_log.push(format!("lN@{t}"));
+                }
                 retry.reset();
                 let wire = Wire::new();
                 ctl.lock().unwrap().wire = Some(wire.clone());
@@ -190,7 +195,11 @@ async fn channel_task(
                     x => x,
                 }
                 .to_string();
-                tlog(&ctl, format!("e{short}"));
+                {
+                    let mut c = ctl.lock().unwrap();
+                    let t = now_ns(&c);
+                    c.task_log.push(format!("e{short}@{t}"));
+                }
                 match short.as_str() {
                     "Shutdown" => "Shutdown",
                     "Disabled" => "Elapsed",
@@ -271,6 +280,11 @@ async fn run_case(line: &str, initial: DecodeLevel) -> String {
     let mut tail: Option<Vec<u8>> = None;
 
     for step in script.split_whitespace() {
+        // a leading '~' means: do not let the runtime settle after this step (the next step happens "at the same time")
+        let (step, no_settle) = match step.strip_prefix('~') {
+            Some(rest) => (rest, true),
+            None => (step, false),
+        };
         let p: Vec<&str> = step.split(':').collect();
         match p[0] {
             "S" => {
@@ -396,6 +410,9 @@ async fn run_case(line: &str, initial: DecodeLevel) -> String {
             }
             "T" => tokio::time::advance(dur(p[1].parse().unwrap())).await,
             other => panic!("unknown step {other:?}"),
+        }
+        if no_settle {
+            continue;
         }
         settle().await;
         // the first part of a frame dies with its connection
